@@ -200,35 +200,10 @@ func init() {
 		S[mod+"/pkg/canonicalizer.MarshalCanonical"] = ma
 		S[mod+"/pkg/docutil.MarshalCanonical"] = ma
 		S[mod+"/pkg/encoder.EncodeToString"] = func(in *Interp, fn *ssa.Function, args []Value) (Value, bool) {
-			dt := in.bytesToStr(args[0])
-			key := fmt.Sprintf("b64enc:%d", dt.id)
-			if m, ok := in.memo[key]; ok {
-				return m, true
-			}
-			name := in.uniqueName("blob.b64")
-			b := in.tb.Var(name, SortStr)
-			in.nondets = append(in.nondets, nondetRec{name, b, "blob"})
-			in.codecs[name] = &codecEntry{"b64", nil, SymBytes{dt}}
-			in.memo[key] = b
-			return b, true
+			return in.b64Encode(in.bytesToStr(args[0])), true
 		}
 		S[mod+"/pkg/encoder.DecodeString"] = func(in *Interp, fn *ssa.Function, args []Value) (Value, bool) {
-			s := args[0].(*Term)
-			if e, ok := in.decodeBlob("b64", s); ok {
-				return Tuple{e.V, Iface{}}, true
-			}
-			key := fmt.Sprintf("b64dec:%d", s.id)
-			if m, ok := in.memo[key]; ok {
-				return copyVal(m), true
-			}
-			var r Value
-			if in.Choose(2) == 1 {
-				r = Tuple{[]Value(nil), in.NewError(in.tb.Str("illegal base64 data"))}
-			} else {
-				r = Tuple{SymBytes{in.Nondet("b64dec", SortStr, "bytes")}, Iface{}}
-			}
-			in.memo[key] = r
-			return r, true
+			return in.b64Decode(args[0].(*Term)), true
 		}
 	})
 }
@@ -437,7 +412,201 @@ func init() {
 			in.memo[key] = r
 			return r, true
 		}
-		e.Stubs["(*encoding/base64.Encoding).EncodeToString"] = b64enc
-		e.Stubs["(*encoding/base64.Encoding).DecodeString"] = b64dec
+		_, _ = b64enc, b64dec
+		e.Stubs["(*encoding/base64.Encoding).EncodeToString"] = func(in *Interp, fn *ssa.Function, args []Value) (Value, bool) {
+			return in.b64Encode(in.bytesToStr(args[1])), true
+		}
+		e.Stubs["(*encoding/base64.Encoding).DecodeString"] = func(in *Interp, fn *ssa.Function, args []Value) (Value, bool) {
+			return in.b64Decode(args[1].(*Term)), true
+		}
 	})
+}
+
+// ---- value-deterministic canonical JSON, multihash codec, codec consistency axioms ------------------
+
+// valueKey fingerprints a value made of scalars, structs, pointers, slices and maps by the identities of
+// its terms: equal keys mean syntactically equal values (so their canonical JSON is equal).
+func (in *Interp) valueKey(v Value, depth int) (string, bool) {
+	if depth > 6 {
+		return "", false
+	}
+	switch x := in.force(v).(type) {
+	case *Term:
+		return fmt.Sprintf("t%d", x.id), true
+	case nil:
+		return "nil", true
+	case *Value:
+		if x == nil {
+			return "nilptr", true
+		}
+		return in.valueKey(*x, depth+1)
+	case Struct:
+		s := "{"
+		for _, f := range x {
+			k, ok := in.valueKey(f, depth+1)
+			if !ok {
+				return "", false
+			}
+			s += k + ","
+		}
+		return s + "}", true
+	case Iface:
+		if x.T == nil {
+			return "nil", true
+		}
+		k, ok := in.valueKey(x.V, depth+1)
+		return "i:" + x.T.String() + ":" + k, ok
+	case []Value:
+		s := "["
+		for _, f := range x {
+			k, ok := in.valueKey(f, depth+1)
+			if !ok {
+				return "", false
+			}
+			s += k + ","
+		}
+		return s + "]", true
+	case SymBytes:
+		return fmt.Sprintf("b%d", x.S.id), true
+	}
+	return "", false
+}
+
+type decodeRec struct {
+	in  *Term // encoded text / bytes that were decoded
+	ok  *Term
+	out []*Term // decoded components
+}
+
+func init() {
+	extraStubs = append(extraStubs, func(e *Engine) {
+		mod := e.Cfg.ModPath
+		// canonical JSON is a function of the value: syntactically equal values get the same blob
+		canon := func(in *Interp, fn *ssa.Function, args []Value) (Value, bool) {
+			i, _ := args[0].(Iface)
+			if k, ok := in.valueKey(i.V, 0); ok && i.T != nil {
+				key := "canon:" + under(deref(i.T)).String() + ":" + k
+				if b, ok := in.memo[key]; ok {
+					return Tuple{b, Iface{}}, true
+				}
+				b := in.encodeBlob("json", i.T, i.V)
+				in.memo[key] = b
+				return Tuple{b, Iface{}}, true
+			}
+			return in.jsonMarshal(args[0], "json"), true
+		}
+		e.Stubs[mod+"/pkg/canonicalizer.MarshalCanonical"] = canon
+		e.Stubs[mod+"/pkg/docutil.MarshalCanonical"] = canon
+
+		mhp := "github.com/multiformats/go-multihash."
+		// multihash.Encode(digest, code): deterministic opaque bytes tagged with (digest, code)
+		e.Stubs[mhp+"Encode"] = func(in *Interp, fn *ssa.Function, args []Value) (Value, bool) {
+			d := in.bytesToStr(args[0])
+			code := args[1].(*Term)
+			key := fmt.Sprintf("mhenc:%d:%d", d.id, code.id)
+			if b, ok := in.memo[key]; ok {
+				return Tuple{b, Iface{}}, true
+			}
+			name := in.uniqueName("blob.mh")
+			b := in.tb.Var(name, SortStr)
+			in.nondets = append(in.nondets, nondetRec{name, b, "blob"})
+			in.codecs[name] = &codecEntry{"mh", nil, Tuple{SymBytes{d}, code}}
+			// consistency with earlier decodes of foreign bytes: equal bytes decode to these components
+			for _, r := range in.decodes["mh"] {
+				in.assertPC(in.tb.Implies(in.tb.Eq(r.in, b), in.tb.And(r.ok, in.tb.Eq(r.out[0], d), in.tb.Eq(r.out[1], code))))
+			}
+			v := SymBytes{b}
+			in.memo[key] = v
+			return Tuple{v, Iface{}}, true
+		}
+		e.Stubs[mhp+"Decode"] = func(in *Interp, fn *ssa.Function, args []Value) (Value, bool) {
+			s := in.bytesToStr(args[0])
+			rt := fn.Signature.Results().At(0).Type().(*types.Pointer).Elem()
+			mk := func(code *Term, digest Value) Value {
+				z := in.zero(rt).(Struct) // Code, Name, Length, Digest
+				z[0] = code
+				z[3] = digest
+				p := new(Value)
+				*p = z
+				return p
+			}
+			if ent, ok := in.decodeBlob("mh", s); ok {
+				t := ent.V.(Tuple)
+				return Tuple{mk(t[1].(*Term), t[0]), Iface{}}, true
+			}
+			key := fmt.Sprintf("mhdec:%d", s.id)
+			if m, ok := in.memo[key]; ok {
+				return m, true
+			}
+			okv := in.noteUF(in.tb.UF("multihash.decodes", SortBool, s))
+			code := in.noteUF(in.tb.UF("multihash.code", BVSort(64), s))
+			dig := in.noteUF(in.tb.UF("multihash.digest", SortStr, s))
+			in.decodes["mh"] = append(in.decodes["mh"], &decodeRec{s, okv, []*Term{dig, code}})
+			var r Value
+			if in.Branch(okv) {
+				r = Tuple{mk(code, SymBytes{dig}), Iface{}}
+			} else {
+				r = Tuple{(*Value)(nil), in.NewError(in.tb.Str("multihash too short or invalid"))}
+			}
+			in.memo[key] = r
+			return r, true
+		}
+		e.Stubs[mhp+"ValidCode"] = func(in *Interp, fn *ssa.Function, args []Value) (Value, bool) {
+			return in.noteUF(in.tb.UF("multihash.validCode", SortBool, args[0].(*Term))), true
+		}
+	})
+}
+
+func deref(t types.Type) types.Type {
+	if p, ok := t.(*types.Pointer); ok {
+		return p.Elem()
+	}
+	return t
+}
+
+// b64Encode / b64Decode: base64url as a codec pair with consistency axioms between encodings and
+// decodings of foreign text (equal text decodes to the encoded bytes).
+func (in *Interp) b64Encode(dt *Term) *Term {
+	key := fmt.Sprintf("b64enc:%d", dt.id)
+	if m, ok := in.memo[key]; ok {
+		return m.(*Term)
+	}
+	name := in.uniqueName("blob.b64")
+	b := in.tb.Var(name, SortStr)
+	in.nondets = append(in.nondets, nondetRec{name, b, "blob"})
+	in.codecs[name] = &codecEntry{"b64", nil, SymBytes{dt}}
+	for _, r := range in.decodes["b64"] {
+		in.assertPC(in.tb.Implies(in.tb.Eq(r.in, b), in.tb.And(r.ok, in.tb.Eq(r.out[0], dt))))
+	}
+	// encoding is injective
+	for _, pr := range in.encoded["b64"] {
+		in.assertPC(in.tb.Implies(in.tb.Eq(pr[0], b), in.tb.Eq(pr[1], dt)))
+	}
+	in.encoded["b64"] = append(in.encoded["b64"], [2]*Term{b, dt})
+	in.memo[key] = b
+	return b
+}
+
+func (in *Interp) b64Decode(s *Term) Value {
+	if e, ok := in.decodeBlob("b64", s); ok {
+		return Tuple{e.V, Iface{}}
+	}
+	key := fmt.Sprintf("b64dec:%d", s.id)
+	if m, ok := in.memo[key]; ok {
+		return copyVal(m)
+	}
+	okv := in.noteUF(in.tb.UF("base64.decodes", SortBool, s))
+	out := in.noteUF(in.tb.UF("base64.decoded", SortStr, s))
+	for _, pr := range in.encoded["b64"] {
+		in.assertPC(in.tb.Implies(in.tb.Eq(s, pr[0]), in.tb.And(okv, in.tb.Eq(out, pr[1]))))
+	}
+	in.decodes["b64"] = append(in.decodes["b64"], &decodeRec{s, okv, []*Term{out}})
+	var r Value
+	if in.Branch(okv) {
+		r = Tuple{SymBytes{out}, Iface{}}
+	} else {
+		r = Tuple{[]Value(nil), in.NewError(in.tb.Str("illegal base64 data"))}
+	}
+	in.memo[key] = r
+	return r
 }
